@@ -7,6 +7,7 @@ pub mod evalorder;
 pub mod attributes;
 pub mod discard;
 pub mod queryhist;
+pub mod sepinputs;
 pub mod externs;
 pub mod fnvalues;
 pub mod generics;
@@ -61,6 +62,7 @@ pub fn all() -> Vec<Box<dyn Family>> {
         Box::new(discard::Discard),
         Box::new(attributes::Attributes),
         Box::new(queryhist::QueryHistories),
+        Box::new(sepinputs::SepInputs),
         Box::new(generics::Generics),
         Box::new(methods::Methods),
         Box::new(derive::Derive),
